@@ -53,6 +53,10 @@ var c07Kinds = map[string]c07Kind{
 	"type-error":         {src: "{{ \"a\" |%NL% plus: 1 }}", cause: "typeerror"},
 	"type-error-date":    {src: "{{ \"not a date\" |%NL% date: \"%Y\" }}", cause: "typeerror"},
 	"type-error-slice":   {src: "{{ \"abc\" | slice:%NL% \"x\" }}", cause: "typeerror"},
+	"type-error-lazy1":   {src: "{{ \"hello wide world\" |%NL% truncate: \"abc\" }}", cause: "typeerror"},
+	"type-error-lazy2":   {src: "{{ 1.5 | round:%NL% \"x\" }}", cause: "typeerror"},
+	"type-error-lazy3":   {src: "{{ \"abc\" | slice: 0,%NL% \"x\" }}", cause: "typeerror"},
+	"type-error-lazy4":   {src: "{% assign v = \"a b c\" | truncatewords: \"two\" %}", cause: "typeerror"},
 	"type-error-assign":  {src: "{% assign v = \"x\" |%NL% times: 2 %}", cause: "typeerror"},
 	"type-error-if":      {src: "{% if \"a\" | plus: 1 %}x{% endif %}", cause: "typeerror"},
 	"offset-not-int":     {src: "{% for q in (1..2) offset: \"x\" %}x{% endfor %}"},
@@ -223,8 +227,9 @@ var c07Locate = hx.Define("c07.locate", func(c *c07Case, s *hx.Sub) *hx.Violatio
 			return hx.V("c07:cause:"+c.Kind, "%s: Cause() = %v does not lead to the filter's own error", desc, err.Cause())
 		}
 	case "typeerror":
-		if err.Cause() == nil || !reaches(err.Cause(), func(e error) bool { _, ok := e.(values.TypeError); return ok }) {
-			return hx.V("c07:cause:"+c.Kind, "%s: Cause() = %v does not lead to the conversion error", desc, err.Cause())
+		// "a conversion error ... is what Cause returns": the TypeError itself, not a wrapper around it
+		if _, ok := err.Cause().(values.TypeError); !ok {
+			return hx.V("c07:cause:"+c.Kind, "%s: Cause() = %T (%v) is not the conversion error", desc, err.Cause(), err.Cause())
 		}
 	}
 	if len(c.Wrappers) >= 1 && wantLine > c.Start {
